@@ -25,6 +25,7 @@ from pyvc.values import NONE, VBool, VExt, VInt, VNoneT, VRef, VSeq, VStr, VTupl
 from pyvc.verify import Maker, p_str
 
 from contracts import c14_exec as X
+from contracts.c14_inline import line_of as LN, inlined as inline_helpers
 from contracts import c14_spec as SP
 from contracts.c14_exec import C14Executor, p_symbytes, data_of
 from contracts.c03_exec import Conj
@@ -292,7 +293,7 @@ SITES = [
          why="source part = the slide part `slide_path`"),
     dict(rel=DOCX, fn="_extract_images_from_context", sinks=("get_image_data",), keys=("target",), base=("const", "word"), label="document-image",
          why="source part = word/document.xml"),
-    dict(rel=XLSX, fn="_extract_images_from_zip", sinks=("read_bytes",), keys=("target",), base=("dirname", "drawing_path"), label="drawing-image",
+    dict(rel=XLSX, fn="_extract_images_from_zip", sinks=("read_bytes",), keys=("target",), base=("dirname", "@items-loop-value"), label="drawing-image",
          why="source part = the drawing part `drawing_path`"),
     dict(rel=EPUB, fn="_extract_images", sinks=("read_bytes",), keys=("href",), base=("field", "ctx", "_opf_dir"), label="manifest-image",
          why="source part = the OPF package document", makers={"ctx": ("obj", "_EpubContext", ("_opf_dir",))}),
@@ -338,6 +339,56 @@ def _arg_of_store_value(attr):
     return find
 
 
+def _items_loops(fn):
+    """for-loops over `<table>.items()`: [(loop, table name)]"""
+    out = []
+    for n in ast.walk(fn):
+        if isinstance(n, ast.For) and isinstance(n.iter, ast.Call) and isinstance(n.iter.func, ast.Attribute) and n.iter.func.attr == "items" \
+                and isinstance(n.iter.func.value, ast.Name):
+            out.append((n, n.iter.func.value.id))
+    return sorted(out, key=lambda x: (x[0].lineno, x[0].col_offset))
+
+
+def _xlsx_drawing_rels(fn):
+    """The relationship part read to fill the table from which the name handed to read_bytes() is taken; owner = the loop variable that
+    holds the drawing part (second target of the loop over the sheet -> drawing table)."""
+    from contracts import c14_flow as F
+    pm = F.parent_map(fn)
+    owner = None
+    for (lp, _m) in _items_loops(fn):
+        if isinstance(lp.target, ast.Tuple) and len(lp.target.elts) == 2 and isinstance(lp.target.elts[1], ast.Name):
+            owner = lp.target.elts[1].id
+            break
+    for call in F.method_calls(fn, ("read_bytes",)):
+        a = call.args[0]
+        if not isinstance(a, ast.Name):
+            continue
+        b = F.reaching(fn, pm, a.id, call)
+        if b is None or b.kind != "assign" or not (isinstance(b.value, ast.Subscript) and isinstance(b.value.value, ast.Name)):
+            continue
+        m = F.resolve_alias(fn, pm, b.value.value.id, b.node)
+        st = F.map_stores(fn, m)
+        if len(st) == 1:
+            r = F.relationships_read_feeding(fn, pm, st[0])
+            if r is not None:
+                return [r], owner
+    return [], owner
+
+
+def _xlsx_sheet_rels(fn):
+    """The relationship part read to fill the sheet -> drawing table; owner = the key under which the drawing is stored (sheet index)."""
+    from contracts import c14_flow as F
+    pm = F.parent_map(fn)
+    for (lp, m) in _items_loops(fn):
+        m2 = F.resolve_alias(fn, pm, m, lp)
+        st = F.map_stores(fn, m2)
+        if len(st) == 1 and isinstance(st[0].targets[0].slice, ast.Name):
+            r = F.relationships_read_feeding(fn, pm, st[0])
+            if r is not None:
+                return [r], st[0].targets[0].slice.id
+    return [], None
+
+
 def _has_dir(name):
     return lambda c: z3.Contains(c.args[name].t, z3.StringVal("/"))
 
@@ -352,11 +403,11 @@ SITES += [
     dict(rel=PPTX, fn="_PptxContext._load_xml_files", sink=_arg_of_store_value("_slide_rels_roots"), keys=("target",), need_target=False, extra=["slide_path"],
          spec=lambda c: SP.RELS_PART(c.args["slide_path"].t), requires=_has_dir("slide_path"), label="slide-relationship-part",
          why="relationship part of the slide part"),
-    dict(rel=XLSX, fn="_extract_images_from_zip", sink=_rels_reads(1), keys=("target",), need_target=False, extra=["drawing_path"],
-         spec=lambda c: SP.RELS_PART(c.args["drawing_path"].t), requires=_has_dir("drawing_path"), label="drawing-relationship-part",
-         why="relationship part of the drawing part"),
-    dict(rel=XLSX, fn="_extract_images_from_zip", sink=_rels_reads(0), keys=("target",), need_target=False, extra=["sheet_idx"], int_params=("sheet_idx",),
-         spec=lambda c: SP.RELS_PART(SHEET_PART(c.args["sheet_idx"].t)), label="sheet-relationship-part",
+    dict(rel=XLSX, fn="_extract_images_from_zip", dyn=_xlsx_drawing_rels, keys=("target",), need_target=False,
+         spec_of=lambda c, o: SP.RELS_PART(c.args[o].t), requires_of=_has_dir, label="drawing-relationship-part",
+         why="relationship part of the drawing part (found by data flow: the part read to fill the table the image names come from)"),
+    dict(rel=XLSX, fn="_extract_images_from_zip", dyn=_xlsx_sheet_rels, keys=("target",), need_target=False, owner_is_int=True,
+         spec_of=lambda c, o: SP.RELS_PART(SHEET_PART(c.args[o].t)), label="sheet-relationship-part",
          why="relationship part of the part that workbook.xml names for the k-th sheet"),
 ]
 
@@ -384,6 +435,8 @@ def run_site(site, repo, reg=None, uni=None):
     short = rel.split("/")[-1]
     mod = loader.module(rel, repo)
     fn = mod.functions.get(fname)
+    if fn is not None:
+        fn, _inl = inline_helpers(mod, fname)      # follow the data flow through small private helpers
     base_id = f"C14/{short}::{fname}/resolution#{site['label']}"
     if fn is None:
         return {"obligations": [], "functions": [], "undecided": [{"obligation": f"{rel}::{fname}", "why": "contract-target-missing"}]}
@@ -392,7 +445,16 @@ def run_site(site, repo, reg=None, uni=None):
         for c in contracts(reg):
             reg.add(c)
         uni = Universe(repo)
-    if "sink" in site:
+    owner = None
+    if "dyn" in site:
+        try:
+            sinks, owner = site["dyn"](fn)  # sink found by following the data flow; `owner` = name holding the owning part / index
+        except Exception as e:  # noqa  -- unexpected shape: undecided, never an engine error
+            sinks, owner = [], None
+        site = dict(site, extra=[owner] if owner else [], spec=(lambda c, o=owner, f=site["spec_of"]: f(c, o)),
+                    requires=(site["requires_of"](owner) if site.get("requires_of") and owner else None),
+                    int_params=(owner,) if site.get("owner_is_int") and owner else ())
+    elif "sink" in site:
         sinks = site["sink"](fn)            # [(expression, node at which it is evaluated)]
     else:
         sinks = [(call.args[0], call) for call in F.method_calls(fn, site["sinks"])]
@@ -402,6 +464,13 @@ def run_site(site, repo, reg=None, uni=None):
     keys = site["keys"]
     for k, (sink_expr, call) in enumerate(sinks):
         oid = f"{base_id}-{k}" if len(sinks) > 1 else base_id
+        if site.get("base", ("",))[0] == "dirname" and site["base"][1] == "@items-loop-value":
+            nm = next((lp.target.elts[1].id for (lp, _m) in _items_loops(fn) if isinstance(lp.target, ast.Tuple) and len(lp.target.elts) == 2
+                       and isinstance(lp.target.elts[1], ast.Name)), None)
+            if nm is None:
+                obls.append(ground_obligation(oid, False, "no loop over a sheet -> drawing table found: shape not recognised", rel, kind="resolution", definite=False))
+                continue
+            site = dict(site, base=("dirname", nm))
         extra = list(site.get("extra", [])) + ([site["base"][1]] if site.get("base", ("",))[0] in ("dirname", "field") else [])
         f, sl = F.build_slice_function(fn, sink_expr, call, lambda e: F.is_lookup_of(e, keys), extra_params=extra, extra_sources=extra)
         if f is None:
@@ -456,15 +525,48 @@ def run_site(site, repo, reg=None, uni=None):
             continue
         d = verify.discharge(ob, None, getattr(ex, "witness_terms", {}))
         d = _unvalidated_to_unknown(d)
-        d.update(id=oid, kind="resolution", loc=f"{rel}:{call.lineno}", function=f"{rel}::{fname}",
+        d.update(id=oid, kind="resolution", loc=f"{rel}:{LN(call)}", function=f"{rel}::{fname}",
                  replay_hint={"site": site["label"], "slice": ast.unparse(f), "base": list(b)})
         obls.append(d)
     return {"obligations": obls, "functions": [dict(mod.fn_info(fname), obligations=len(obls))]}
 
 
+def _native(ob, repo):
+    import json
+    import subprocess
+    root = os.path.dirname(os.path.dirname(os.path.abspath(__file__)))
+    req = {"property": "C14", "obligation": ob["id"], "witness": ob.get("witness"), "repo": repo}
+    try:
+        p = subprocess.run(["/venv/bin/python", os.path.join(root, "replay", "run.py")], input=json.dumps(req), capture_output=True, text=True,
+                           timeout=600, cwd=root, env=dict(os.environ, VERIF_REPO=repo))
+        lines = [l for l in p.stdout.splitlines() if l.startswith("{")]
+        return json.loads(lines[-1]) if lines else {"reproduced": False}
+    except Exception as e:  # noqa
+        return {"reproduced": False, "note": str(e)}
+
+
+def confirm_natively(res, repo):
+    """A refutation obtained by analysing the SHAPE of the code (AST dataflow, slices with uninterpreted spec functions) is a violation only
+    when the native replayer reproduces a failing input on the real code; otherwise the obligation is `unknown` (UNDECIDED)."""
+    from concurrent.futures import ThreadPoolExecutor
+    todo = [o for o in res.get("obligations", []) if o["status"] in ("refuted", "unknown")]
+    if not todo:
+        return res
+    with ThreadPoolExecutor(max_workers=6) as ex:
+        outs = list(ex.map(lambda o: _native(o, repo), todo))
+    for o, r in zip(todo, outs):
+        if r.get("reproduced"):
+            o["status"] = "refuted"
+            o["reason"] = ((o.get("reason") or "") + "; failing input reproduced natively: " + str(r.get("observed", ""))[:160]).strip("; ")
+        else:
+            o["status"] = "unknown"
+            o["reason"] = ((o.get("reason") or "") + "; not reproduced natively").strip("; ")
+    return res
+
+
 def _site_runner(i):
     def run(repo, tier):
-        return run_site(SITES[i], repo)
+        return confirm_natively(run_site(SITES[i], repo), repo)
     run.__name__ = f"site_{SITES[i]['rel'].split('/')[-1].split('.')[0]}_{SITES[i]['fn']}"
     return run
 
@@ -522,14 +624,14 @@ def _common(ck, ctor, num_kw, payload_kw, reads, counter, sniff_total=True):
             continue            # placeholder without payload (external link / failed read)
         nm, why = SI.payload_source(ck, c, payload_kw)
         if nm is None:
-            bad.append(f"line {c.lineno}: {why}")
+            bad.append(f"line {LN(c)}: {why}")
             continue
         rd, why = SI.read_def(ck, nm, c, reads)
         if rd is None:
-            bad.append(f"line {c.lineno}: {why}")
+            bad.append(f"line {LN(c)}: {why}")
             continue
         if rd not in sinks:
-            bad.append(f"line {c.lineno}: the read is not one of the verified resolution sinks")
+            bad.append(f"line {LN(c)}: the read is not one of the verified resolution sinks")
             continue
         n_ok += 1
     if not n_ok and not bad:
@@ -551,21 +653,21 @@ def _pixel_from_sniffer(ck, sites, payload_kw, label="size-sniffed-from-the-payl
         for dim, idx in (("width", 0), ("height", 1)):
             v = SI.kwv(c, dim)
             if not isinstance(v, ast.Name):
-                bad.append(f"line {c.lineno}: {dim}={ast.unparse(v) if v is not None else 'missing'}")
+                bad.append(f"line {LN(c)}: {dim}={ast.unparse(v) if v is not None else 'missing'}")
                 continue
             defs = [b for b in __import__('contracts.c14_flow', fromlist=['bindings_of']).bindings_of(ck.fn, v.id)]
             sn = [b for b in defs if b.kind in ("other", "unpack") and isinstance(b.node, ast.Assign) and isinstance(b.node.value, ast.Call)
                   and dotted(b.node.value.func) == "_get_image_pixel_dimensions"]
             others = [b for b in defs if b not in sn]
             if not sn:
-                bad.append(f"line {c.lineno}: {dim} does not come from _get_image_pixel_dimensions")
+                bad.append(f"line {LN(c)}: {dim} does not come from _get_image_pixel_dimensions")
             elif others:
-                bad.append(f"line {c.lineno}: {dim} is also assigned from {', '.join(sorted(set(ast.unparse(b.value)[:40] if b.value is not None else b.kind for b in others)))} "
+                bad.append(f"line {LN(c)}: {dim} is also assigned from {', '.join(sorted(set(ast.unparse(b.value)[:40] if b.value is not None else b.kind for b in others)))} "
                            f"(the sniffed size is used only as a fallback)")
             else:
                 call = sn[0].node.value
                 if not (nm is not None and len(call.args) == 1 and isinstance(call.args[0], ast.Name) and call.args[0].id == nm.id):
-                    bad.append(f"line {c.lineno}: the sniffer is not applied to the stored payload")
+                    bad.append(f"line {LN(c)}: the sniffer is not applied to the stored payload")
                 else:
                     ok += 1
     ck.add("pixel-size", label, ok > 0 and not bad, "; ".join(sorted(set(bad))))
@@ -585,7 +687,7 @@ def _single_traversal(ck, ctor, num_kw, label="single-document-order-traversal")
         if l and l[0] not in nests:
             nests.append(l[0])
     if len(nests) > 1:
-        return ck.add("order", label, False, f"{len(nests)} separate traversals append numbered images (loops at lines {[n.lineno for n in nests]}): "
+        return ck.add("order", label, False, f"{len(nests)} separate traversals append numbered images (loops at lines {[LN(n) for n in nests]}): "
                                              f"images of the later traversal are numbered after all images of the earlier one")
     bad, unk = [], []
     for lp in SI.loops_around(ck.pm, apps[0]):
@@ -656,12 +758,12 @@ def _ct_from_extension(ck, sites, of_names, label="looked-up-by-the-lower-cased-
             if ext_of(k):
                 ok += 1
                 continue
-            bad.append(f"line {c.lineno}: key {ast.unparse(k)[:60]}")
+            bad.append(f"line {LN(c)}: key {ast.unparse(k)[:60]}")
         elif isinstance(v, ast.Call) and dotted(v.func) in ("_get_content_type", "guess_content_type") and len(v.args) == 1 \
                 and isinstance(v.args[0], ast.Name) and v.args[0].id in of_names:
             ok += 1
         else:
-            bad.append(f"line {c.lineno}: content_type={ast.unparse(v)[:60]}")
+            bad.append(f"line {LN(c)}: content_type={ast.unparse(v)[:60]}")
     if bad or not ok:
         return ck.unknown("content-type", label, "; ".join(bad) or "no content_type= found")
     ck.add("content-type", label, True)
@@ -676,8 +778,8 @@ def image_sites(repo, tier):
         obls.extend(ck.obls)
         fns.append(dict(ck.mod.fn_info(ck.fname), obligations=len(ck.obls)))
 
-    def mk(rel, fname):
-        ck = SI.Checker("C14", rel, fname, repo)
+    def mk(rel, fname, inline=True):
+        ck = SI.Checker("C14", rel, fname, repo, inline=inline)
         if ck.fn is None:
             und.append({"obligation": f"{rel}::{fname}", "why": "contract-target-missing"})
             return None
@@ -709,7 +811,7 @@ def image_sites(repo, tier):
         _ct_table(ck)
         _ct_from_extension(ck, sites, ("target",))
         # unit attribution: slide_number= is the function's slide_number parameter
-        bad = [c.lineno for c in sites if not (isinstance(SI.kwv(c, "slide_number"), ast.Name) and SI.kwv(c, "slide_number").id == "slide_number"
+        bad = [LN(c) for c in sites if not (isinstance(SI.kwv(c, "slide_number"), ast.Name) and SI.kwv(c, "slide_number").id == "slide_number"
                                                and reaching(ck.fn, ck.pm, "slide_number", c) is not None and reaching(ck.fn, ck.pm, "slide_number", c).kind == "param")]
         ck.add("unit", "image-carries-the-number-of-its-slide", not bad and bool(sites), f"lines {bad}")
         done(ck)
@@ -759,16 +861,16 @@ def image_sites(repo, tier):
             _single_traversal(ck, "OpenDocumentImage", "image_index")
         done(ck)
     # ---- odp: the number is handed to the helper as counter + 1, the counter is incremented when an image came back ----
-    ck = mk(ODP, "_extract_slide")
+    ck = mk(ODP, "_extract_slide", inline=False)     # these two analyses are about the helper call itself
     if ck:
         _odp(ck, repo)
         done(ck)
     ck = mk(ODP, "_extract_image")
     if ck:
         sites = SI.ctor_calls(ck.fn, "OpenDocumentImage")
-        bad = [c.lineno for c in sites if not (isinstance(SI.kwv(c, "image_index"), ast.Name) and SI.kwv(c, "image_index").id == "image_index")]
+        bad = [LN(c) for c in sites if not (isinstance(SI.kwv(c, "image_index"), ast.Name) and SI.kwv(c, "image_index").id == "image_index")]
         ck.add("numbering", "number-is-the-parameter-image_index", bool(sites) and not bad, f"lines {bad}")
-        bad = [c.lineno for c in sites if not (isinstance(SI.kwv(c, "unit_name"), ast.Name) and SI.kwv(c, "unit_name").id == "slide_number")]
+        bad = [LN(c) for c in sites if not (isinstance(SI.kwv(c, "unit_name"), ast.Name) and SI.kwv(c, "unit_name").id == "slide_number")]
         ck.add("unit", "image-carries-the-number-of-its-slide", bool(sites) and not bad, f"lines {bad}")
         _payload_only(ck, sites, "data", ("read_bytes",))
         _odf_pixel(ck, sites)
@@ -782,7 +884,7 @@ def image_sites(repo, tier):
         if z is not None and not isinstance(z, bool):
             pu = ck.called_once_per_document()
             ck.add("numbering", "counter-starts-at-zero-once-per-document", not pu, f"called per unit from {pu}")
-        bad = [c.lineno for c in sites if SI.kwv(c, "width") is None or SI.kwv(c, "height") is None]
+        bad = [LN(c) for c in sites if SI.kwv(c, "width") is None or SI.kwv(c, "height") is None]
         ck.add("pixel-size", "size-sniffed-from-the-payload", bool(sites) and not bad,
                f"EpubImage constructed without width= / height= (lines {bad}): the pixel size the file declares is never reported")
         # content type: the media-type the manifest declares for the same item
@@ -791,7 +893,7 @@ def image_sites(repo, tier):
         _single_traversal(ck, "EpubImage", "image_index")
         done(ck)
     # ---- pdf ----
-    ck = mk(PDF, "_extract_image_bytes")
+    ck = mk(PDF, "_extract_image_bytes", inline=False)
     if ck:
         _pdf(ck)
         done(ck)
@@ -812,24 +914,24 @@ def _per_part_table(ck):
         if isinstance(v, ast.Name):
             b = reaching(fn, ck.pm, v.id, r)
             if b is None or b.kind != "assign" or not (isinstance(b.value, ast.Dict) and not b.value.keys):
-                bad.append(f"line {r.lineno}: the returned table {v.id} is not created empty in this call")
+                bad.append(f"line {LN(r)}: the returned table {v.id} is not created empty in this call")
             else:
                 fresh.add(v.id)
         elif isinstance(v, ast.Subscript) and isinstance(v.slice, ast.Name) and v.slice.id == par:
             pass        # cached table of the same path
         else:
-            bad.append(f"line {r.lineno}: returns {ast.unparse(v)[:50]}")
+            bad.append(f"line {LN(r)}: returns {ast.unparse(v)[:50]}")
     for n in ast.walk(fn):
         if isinstance(n, ast.Subscript) and isinstance(n.value, ast.Attribute) and n.value.attr.startswith("_slide_rel"):
             if not (isinstance(n.slice, ast.Name) and n.slice.id == par):
-                bad.append(f"line {n.lineno}: {ast.unparse(n)[:50]} is not keyed by the slide path")
+                bad.append(f"line {LN(n)}: {ast.unparse(n)[:50]} is not keyed by the slide path")
         if isinstance(n, ast.Call) and isinstance(n.func, ast.Attribute) and n.func.attr == "get" and isinstance(n.func.value, ast.Attribute) \
                 and n.func.value.attr.startswith("_slide_rel"):
             if not (n.args and isinstance(n.args[0], ast.Name) and n.args[0].id == par):
-                bad.append(f"line {n.lineno}: {ast.unparse(n)[:50]} is not keyed by the slide path")
+                bad.append(f"line {LN(n)}: {ast.unparse(n)[:50]} is not keyed by the slide path")
         if isinstance(n, ast.Compare) and any(isinstance(c, ast.Attribute) and c.attr.startswith("_slide_rel") for c in n.comparators):
             if not (isinstance(n.left, ast.Name) and n.left.id == par):
-                bad.append(f"line {n.lineno}: {ast.unparse(n)[:50]} does not test the slide path")
+                bad.append(f"line {LN(n)}: {ast.unparse(n)[:50]} does not test the slide path")
     # entries: table[id] = {"target": rel["target"], ...} with rel ranging over parse_relationships(<root looked up by the path>)
     stores = [n for n in ast.walk(fn) if isinstance(n, ast.Assign) and isinstance(n.targets[0], ast.Subscript) and isinstance(n.targets[0].value, ast.Name)
               and n.targets[0].value.id in fresh]
@@ -844,7 +946,7 @@ def _per_part_table(ck):
                 if kb is not None and kb.kind == "assign" and ast.unparse(kb.value) == f"{tv.value.id}['id']":
                     ok_store = True
                     continue
-        bad.append(f"line {st.lineno}: entry {ast.unparse(st)[:70]}")
+        bad.append(f"line {LN(st)}: entry {ast.unparse(st)[:70]}")
     if not rets or par is None or not stores:
         return ck.unknown("resolution", "relationship-table-of-the-given-part", "shape not recognised")
     ck.add("resolution", "relationship-table-of-the-given-part", not bad and ok_store, "; ".join(bad), definite=False)
@@ -861,7 +963,7 @@ def _payload_only(ck, sites, payload_kw, reads):
         nm, why = SI.payload_source(ck, c, payload_kw)
         rd, why2 = SI.read_def(ck, nm, c, reads) if nm is not None else (None, why)
         if rd is None or rd not in sinks:
-            bad.append(f"line {c.lineno}: {why or why2}")
+            bad.append(f"line {LN(c)}: {why or why2}")
         else:
             ok += 1
     ck.add("bytes", "payload-is-the-container-read-of-the-resolved-name", ok > 0 and not bad, "; ".join(bad))
@@ -876,7 +978,7 @@ def _odf_pixel(ck, sites):
         for dim in ("width", "height"):
             v = SI.kwv(c, dim)
             if not (isinstance(v, ast.Call) and "_get_image_pixel_dimensions" in ast.unparse(v)):
-                bad.append(f"line {c.lineno}: {dim}={ast.unparse(v) if v is not None else 'missing'}")
+                bad.append(f"line {LN(c)}: {dim}={ast.unparse(v) if v is not None else 'missing'}")
     ck.add("pixel-size", "size-sniffed-from-the-payload", not bad and bool(sites),
            ("the frame extent (svg:width / svg:height, a length such as '1in') is stored, not the pixel size the image file declares: " + "; ".join(bad[:4])) if bad else "")
 
@@ -1207,7 +1309,7 @@ def sniffers_agree(repo, tier):
     obls = []
     for (ra, rb, label) in ((DOCX, PPTX, "docx-pptx"), (DOCX, XLSX, "docx-xlsx")):
         obls.extend(AG.agree(repo, ra, rb, "_get_image_pixel_dimensions", label, reg, uni, C14Executor))
-    return {"obligations": obls, "functions": []}
+    return confirm_natively({"obligations": obls, "functions": []}, repo)
 
 
 def seq_lemmas(repo, tier):
